@@ -53,6 +53,13 @@ func c09Specs() []*bfsSpec {
 			Setup:    []string{"drain", "haveall:0", "drain", "mtick", "drain", "manswer:1"},
 			Alphabet: []string{"ev", "drain", "donthave:0:0", "donthave:0:1", "have:1:1", "bf:1:3", "havenone:0", "haveall:1", "close:0"},
 			Depth: 5, DepthT: 7},
+		// advertisements while the torrent's loop lags behind the peer: a Bitfield, Have,
+		// HaveAll/HaveNone or DontHave is handled by the peer while the event that reports an
+		// earlier advertisement is still queued (an event that aliases the peer's live bitmap
+		// is applied with later advertisements already in it, and those are then counted twice)
+		{BothMapOrders: true, Name: "c09-lagging-advertisements", Cfg: worldCfg{Geom: "g2x2", Peers: []peerCfg{{Fast: true, Ext: true, DontHave: 7}, {}}, AutoDrain: false},
+			Alphabet: []string{"ev", "drain", "bf:0:1", "bf:1:2", "have:0:1", "have:1:0", "haveall:0", "havenone:0", "donthave:0:0", "close:0", "close:1"},
+			Depth: 5, DepthT: 7},
 		{BothMapOrders: true, Name: "c09-manual-events", Cfg: worldCfg{Geom: "g2x2", Peers: []peerCfg{{Fast: true, Ext: true, DontHave: 7}, {Fast: true}}, AutoDrain: false},
 			Setup:    []string{"haveall:0", "drain", "haveall:1", "drain", "unchoke:0", "drain", "unchoke:1", "drain", "want:0:1", "tick"},
 			Alphabet: []string{"ev", "drain", "tick", "ans:0:old:full", "ans:1:old:full", "close:0", "close:1", "choke:0", "unwant:0:1", "adv:2"},
